@@ -787,6 +787,15 @@ hwloc_backend_synthetic_init(struct hwloc_synthetic_backend_data_s *data,
     errno = EINVAL;
     return -1;
   }
+  for(i=HWLOC_OBJ_L1CACHE; i<=HWLOC_OBJ_L3ICACHE; i++) {
+    /* only Groups may exist at several depths */
+    if (type_count[i] > 1) {
+      if (verbose)
+	fprintf(stderr, "Synthetic string cannot have several %s levels\n", hwloc_obj_type_string((hwloc_obj_type_t) i));
+      errno = EINVAL;
+      return -1;
+    }
+  }
 
   /* deal with missing intermediate levels */
   unset = 0;
